@@ -546,6 +546,14 @@ func (in *inliner) FixedList(rs *ast.RangeStmt) []ast.Expr {
 		sub, _ := paths.Subst(info, ret.Results[0], repl).(ast.Expr)
 		x = ast.Unparen(sub)
 	}
+	if id, ok := x.(*ast.Ident); ok {
+		// a package-level table that is never written: var seps = [...]string{" ", ";"}
+		if pv, ok := info.ObjectOf(id).(*types.Var); ok && pv.Pkg() != nil && pv.Parent() == pv.Pkg().Scope() {
+			if lit, _ := (&strEval{p: in.p, info: info}).pkgVarInit(pv); lit != nil {
+				x = lit
+			}
+		}
+	}
 	cl, ok := x.(*ast.CompositeLit)
 	if !ok {
 		return nil
